@@ -75,9 +75,14 @@ CatRange(s, a, b) ==
   ELSE LET m == (a + b) \div 2 IN CatRange(s, a, m) \o CatRange(s, m + 1, b)
 Flat(s) == CatRange(s, 1, Len(s))
 
+\* enterprise number as 4 bytes: taken from f.entb when the field carries it (numbers >= 2^31
+\* do not fit a TLC integer), else computed from f.ent
+EntB(f) == IF "entb" \in DOMAIN f THEN f.entb ELSE BE4(f.ent)
+IsEnterprise(f) == EntB(f) # <<0, 0, 0, 0>>
+
 FieldSpec(f) ==
-  IF f.ent # 0
-    THEN BE2(f.id + 32768) \o BE2(f.len) \o BE4(f.ent)
+  IF IsEnterprise(f)
+    THEN BE2(f.id + 32768) \o BE2(f.len) \o EntB(f)
     ELSE BE2(f.id) \o BE2(f.len)
 
 EncTemplateRecord(tid, fields) ==
@@ -105,7 +110,7 @@ EncMessage(time, seq, dom, setBytes) ==
 
 \* length of the specifiers of a template record (4 per field, +4 when enterprise-specific)
 MinSpecLen(fields) ==
-  FoldLeft(LAMBDA acc, f : acc + (IF f.ent # 0 THEN 8 ELSE 4), 0, fields)
+  FoldLeft(LAMBDA acc, f : acc + (IF IsEnterprise(f) THEN 8 ELSE 4), 0, fields)
 
 \* a record as the builders hold it: [kind, tid, fields, vals]
 RecBytes(r) == IF r.kind = "template" THEN EncTemplateRecord(r.tid, r.fields)
